@@ -180,12 +180,6 @@ def generate(repo, verif, build_dbus_dir):
     nc = re.search(r"^#define N_CHALLENGE_BYTES\s+(.+)$", src, re.M)
     if not (mf and mb and nc):
         raise Shape("max_failures / MAX_BUFFER / N_CHALLENGE_BYTES not found")
-    dw = strip_comments(function_body(src, "_dbus_auth_do_work"))
-    if not re.search(r"_dbus_string_get_length \(&auth->incoming\) > MAX_BUFFER \|\|\s*_dbus_string_get_length \(&auth->outgoing\) > MAX_BUFFER", dw):
-        raise Shape("_dbus_auth_do_work: buffer test has unexpected shape")
-    sr = strip_comments(function_body(src, "send_rejected"))
-    if not re.search(r"server_auth->failures \+= 1;\s*if \(server_auth->failures >= server_auth->max_failures\)\s*goto_state \(auth, &common_state_need_disconnect\);\s*else\s*goto_state \(auth, &server_state_waiting_for_auth\);", sr):
-        raise Shape("send_rejected: failure counting has unexpected shape")
     gdir = os.path.join(os.path.dirname(build_dbus_dir), "gen")
     os.makedirs(gdir, exist_ok=True)
     cfile, exe = os.path.join(gdir, "gen_auth.c"), os.path.join(gdir, "gen_auth")
